@@ -77,7 +77,7 @@ def _persistent_base(ctx: Ctx, mod: Mod, at: ast.AST, base: ast.AST, fn: ast.AST
     return None
 
 
-def _sink_declared_scalar(mod: Mod, sink: str) -> bool:
+def _sink_declared_scalar(mod: Mod, sink: str, key_only: bool = False) -> bool:
     """`module-level object `x`` whose annotation (`x: Dict[int, Tuple[CodeType, Tuple[Rec, ...]]] = {}`), with module-level type
     aliases resolved, mentions only scalar types, code objects and immutable containers of those"""
     import re as _re
@@ -113,6 +113,8 @@ def _sink_declared_scalar(mod: Mod, sink: str) -> bool:
         return False
     args = list(a.slice.elts) if isinstance(a.slice, ast.Tuple) else [a.slice]
     sc = _ScalarAnn()
+    if key_only:
+        return len(args) == 2 and sc._ok(args[0])
     return bool(args) and all(sc._ok(x) for x in args)
 
 
@@ -178,7 +180,12 @@ def esc1(ctx: Ctx) -> None:
                 if sink is None:
                     continue
                 n_sites += 1
-                if val is not None and expr_tainted(val, t) and _sink_declared_scalar(mod, sink):
+                # X.setdefault(key, value) / X[key] = value into a mapping whose *key* type is scalar (code objects, numbers, strings):
+                # when only the key is target-derived, what is kept is a key of that kind
+                key_only = False
+                if isinstance(n, ast.Call) and n.func.attr in ("setdefault", "__setitem__") and len(n.args) == 2 and expr_tainted(n.args[0], t) and not expr_tainted(n.args[1], t):
+                    key_only = _sink_declared_scalar(mod, sink, key_only=True)
+                if val is not None and expr_tainted(val, t) and (key_only or _sink_declared_scalar(mod, sink)):
                     ctx.R.ok("ESC-1", f"{mod.name}.{q}: {norm(n)[:70]}", f"{sink} is declared to hold only numbers / flags / strings / code objects (its annotation, aliases resolved): "
                              "nothing of the observed program's state fits there")
                 elif val is not None and expr_tainted(val, t):
